@@ -191,7 +191,10 @@ def cap_conditioner(subject, cfg, m, cap=4.0):
     ctx = None if cs is None else torch.stack([pat_tensor(cs, 5 + k % 3, 0.7, dtype=torch.float32) for k in range(len(rows))])
     was = net.training
     net.eval()
-    with torch.no_grad():
+    # the probe pass runs under its own fixed RNG state: if the tree under test draws random numbers in evaluation mode the
+    # scale chosen here (and with it every later result) must not depend on what ran before in this process
+    with torch.no_grad(), torch.random.fork_rng():
+        torch.manual_seed(20240901)
         out = net(x, ctx) if ctx is not None else net(x)
         if out.numel() == 0:
             net.train(was)
@@ -587,7 +590,8 @@ def _coupling_ctx(c):
     return (2,) if c["dims"] == "2d" else (2, 2, 1)
 
 
-CPL_BASE = {"mask": [[1, 0, 1], [0, 1], [1, 0], [0, 1, 0], [0, 0, 1], [-1.0, 0.5, 2.0]], "dims": ["2d", "4d", "4d_bn", "4d_do"], "context": [False, True], "act": ["relu", "tanh"]}
+CPL_BASE = {"mask": [[1, 0, 1], [0, 1], [1, 0], [0, 1, 0], [0, 0, 1], [-1.0, 0.5, 2.0], [1, 0, 0], [0, 1, 0, 0]],  # the last two: identity/transformed index lists whose concatenation is a permutation that is not its own inverse
+            "dims": ["2d", "4d", "4d_bn", "4d_do"], "context": [False, True], "act": ["relu", "tanh"]}
 reg(Subject("AffineCouplingTransform", dict(CPL_BASE, scale_act=["default", "general"], net=["resnet", "mlp", "resnet_bn", "resnet_do"]), _coupling("AffineCouplingTransform"), _coupling_shape, ctx=_coupling_ctx, kind="coupling", patterns=COND_PATTERNS))
 reg(Subject("AdditiveCouplingTransform", dict(CPL_BASE, net=["resnet", "mlp", "resnet_do"]), _coupling("AdditiveCouplingTransform"), _coupling_shape, ctx=_coupling_ctx, kind="coupling", patterns=COND_PATTERNS))
 
